@@ -32,7 +32,8 @@ python3 - "$ID" "$TESTS" "$DEMO_CLEAN" "$DEMO_SEEDED" "{${RES%, }}" <<'PY'
 import json,sys,os
 i,tests,dc,ds,res=sys.argv[1:6]
 out=f"/verif/seeded/{i}"+os.environ.get("SEED_SUFFIX","")
-meta={"property":i,"tests_with_change":tests,"demo_exit_on_unchanged_tree":int(dc),"demo_exit_with_change":int(ds),
+import subprocess
+meta={"property":i,"repo_head":subprocess.run(["git","-C","/repo","rev-parse","--short","HEAD"],capture_output=True,text=True).stdout.strip(),"tests_with_change":tests,"demo_exit_on_unchanged_tree":int(dc),"demo_exit_with_change":int(ds),
       "confirmed": ("passed" in tests and "failed" not in tests and dc=="0" and ds=="1"),
       "needs": open(os.path.join(out,"meta.txt")).read() if os.path.exists(os.path.join(out,"meta.txt")) else "",
       "checks_run_against_it": json.loads(res),
